@@ -64,7 +64,11 @@ CLAIMED = {
                  '(C03_plain_invocation_arguments); an exception object stored by a one-of scope fails the consumer instead of being '
                  'passed on (C03_exception_value_fails_consumer, all programs). Switch pipelines, all schedules: every observed body call '
                  'has exactly the dataflow values as arguments — for a switch parameter the selected case\'s value — and every stored '
-                 'result is final (C03_switch_body_arguments, C03_switch_results_final). General, local tier: in the model a node is launched only in a section where `ready` holds — every '
+                 'result is final (C03_switch_body_arguments, C03_switch_results_final). All programs, all schedules, the shape of the '
+                 'arguments (Proofs/KwArgs.lean, Proofs/Budget.lean): every body call, retry and get_default of every execution gets '
+                 'exactly one keyword argument per declared parameter (additional_data at most in addition), never an exception object '
+                 'as a declared parameter\'s value, and the input node gets exactly the caller\'s input_kwargs '
+                 '(C03_every_body_call_gets_the_declared_parameters, C03_input_node_gets_the_callers_kwargs). General, local tier: in the model a node is launched only in a section where `ready` holds — every '
                  '(resolved) source has a stored, visible, non-Recurrent result — and its kwargs are exactly the stored results '
                  'of its sources under the declared names; the input node gets the caller\'s kwargs (C03_* in Props/C03.lean, all '
                  'programs, all states). That stored results are final is C01\'s invariant (partial: tied and monitored against Sem '
@@ -147,7 +151,10 @@ CLAIMED = {
             'get_default is computed only when the policy ends in the default (C12_switch_attempts); the default is computed by one '
             'call of get_default on the arguments of the attempts — its value is the node\'s value (C12_engine_default_value), and '
             'when get_default itself raises that exception is the node\'s failure, reported and contained like a failure of the body '
-            '(C12_engine_default_raises; Program.dfltRaise). Tie: the whole grid of '
+            '(C12_engine_default_raises; Program.dfltRaise). All programs, all schedules (Proofs/Budget.lean): every body call any '
+            'execution observes is attempt k with 1 ≤ k ≤ attempts, get_default is called only for nodes with use_default, a task '
+            'sleeping before a retry has attempts left (C12_every_body_call_is_within_the_budget, '
+            'C12_default_only_for_nodes_that_opt_in, C12_sleeping_task_has_attempts_left). Tie: the whole grid of '
             'configurations × outcome sequences (≤4), with returning and raising get_default, runs on the real engine with a '
             'virtual clock and is compared with Retry.run; '
             'retry-heavy general pipelines are lock-stepped and monitored (same arguments on every attempt).',
